@@ -415,27 +415,6 @@ def u4(ctx, F, D):
 
 
 def en_passant_rows(F):
-    """{owner: {old: row, new: row, taken: row}} from the EnPassant arm of Game::push (board-surgery extraction, S3)."""
-    from . import surgery
-    fn = F.fn("chess::Game::push")
-    try:
-        ex, _ = surgery.extract(fn, F)
-    except surgery.Extraction:
-        return None
-    out = {}
-    for owner in ("White", "Black"):
-        d = {}
-        for sq, content, g, line in ex["EnPassant"][owner]["writes"]:
-            if not (isinstance(sq, tuple) and len(sq) == 2):
-                return None
-            row, col = sq
-            if content is None and col == "start_col":
-                d["old"] = row
-            elif content is None and col == "end_col":
-                d["taken"] = row
-            elif content is not None and col == "end_col":
-                d["new"] = row
-        if set(d) != {"old", "new", "taken"}:
-            return None
-        out[owner] = d
-    return out
+    """{owner: {old: row, new: row, taken: row}} from the evaluated board updates of Game::push for an en-passant capture."""
+    from . import playmodel
+    return playmodel.en_passant_rows(F)
